@@ -18,6 +18,7 @@ type PipeOpts struct {
 	MaxGroupDepth int      // nesting of groups (default 2)
 	Signature     bool     // literal `signature` records on command steps
 	NoTime        bool
+	SmallInts     bool // integers and floats stay exactly representable and small (signing workloads)
 	BigMaps       bool // some Go-map-backed mappings get 9-40 entries
 	Sharing       bool // reuse nodes (aliases) and `<<` merges from templates
 	FalsySkip     bool // allow skip: false | "" | 0 (known finding K1)
@@ -151,7 +152,7 @@ func (g *pgen) typedScalar(class string, allowFloat, allowNull bool) *doc.Node {
 }
 
 func (g *pgen) valueOpts() ValueOpts {
-	return ValueOpts{Str: g.o.Str, MaxDepth: 3, NoTime: g.o.NoTime, UID: &g.uid, KeyTricky: g.o.TrickyKeys}
+	return ValueOpts{Str: g.o.Str, MaxDepth: 3, NoTime: g.o.NoTime, UID: &g.uid, KeyTricky: g.o.TrickyKeys, SmallInts: g.o.SmallInts}
 }
 
 // value: arbitrary nested value for unknown/extra positions.
@@ -626,7 +627,7 @@ func (g *pgen) pluginConfig() *doc.Node {
 		return e
 	case 3:
 		g.feat("plugincfg:scalar")
-		return Scalar(g.r, ValueOpts{Str: g.o.Str, NoTime: true})
+		return Scalar(g.r, ValueOpts{Str: g.o.Str, NoTime: true, SmallInts: g.o.SmallInts})
 	}
 	if g.o.Sharing && len(g.configs) > 0 && g.chance(4) {
 		g.feat("share:plugincfg")
@@ -989,4 +990,15 @@ func (g *pgen) group(depth int) *doc.Node {
 	g.extras(m, "group.extras", reserved, 3)
 	g.r.Shuffle(len(m.Map), func(i, j int) { m.Map[i], m.Map[j] = m.Map[j], m.Map[i] })
 	return m
+}
+
+// CommandStepDoc generates one command step mapping (plain tree).
+func CommandStepDoc(r *rand.Rand, o PipeOpts) (*doc.Node, map[string]int, error) {
+	if o.MaxGroupDepth == 0 {
+		o.MaxGroupDepth = 2
+	}
+	g := &pgen{r: r, o: o, d: &PipeDoc{Feat: map[string]int{}}}
+	st := g.command()
+	plain, err := doc.ResolveMerges(st, 200000)
+	return plain, g.d.Feat, err
 }
